@@ -14,13 +14,16 @@ NATIVE = INLINE + ['Array', 'ArrayIC', 'Seg', 'HashSet', 'HashSetFast', 'HashSet
 NATIVE_TOKENS = ['N', 'Nt', 'Nc', 'Ns']
 CATEGORY_KINDS = ['Array', 'ArrayIC', 'Seg', 'HashSet', 'HashSetFast', 'HashMulti', 'TreeSet', 'DataTable']
 ELEMCAT = {'N': 1, 'Nt': 0, 'Nc': 2, 'Ns': 4}
-WRAP = ['vec', 'vecic', 'set', 'mset', 'map', 'mmap', 'uset', 'useto', 'umap', 'ummap']
-CREW_WRAP = ['set', 'mset', 'map', 'mmap', 'uset', 'useto', 'umap', 'ummap']
+STATEFUL_WRAP = ['mapdir', 'setdir', 'usetseed']     # stdish wrappers with a stateful comparator / hasher (state = the id)
+WRAP = ['vec', 'vecic', 'set', 'mset', 'map', 'mmap', 'uset', 'useto', 'umap', 'ummap'] + STATEFUL_WRAP
+CREW_WRAP = ['set', 'mset', 'map', 'mmap', 'uset', 'useto', 'umap', 'ummap'] + STATEFUL_WRAP
 ARRAYS = ['Array', 'ArrayIC', 'Seg', 'vec', 'vecic']
 TRAITS = [str(k) for k in range(8)] + ['8'] + [str(k) for k in range(16, 24)]
 
 # quick tier: 2 of the 8 throwing-assignment allocator binaries (vector only); all of them in the thorough tier
-QUICK_SKIP = ['17', '18', '19', '20', '22', '23']
+# (cold quick time) and 4 of the 8 POCCA/POCMA/POCS combinations: 0 = none, 2 = POCMA only, 5 = POCCA+POCS, 7 = all  (2 and 5 have
+# POCCA != POCMA, which the trait-confusion mutants need); the theorems cover all combinations, the thorough tier runs all binaries
+QUICK_SKIP = ['17', '18', '19', '20', '22', '23', '1', '3', '4', '6']
 KEY_D12 = 'stdish-swap-moved-from-assert'
 KEY_D13 = 'stdish-move-assign-into-moved-from-nonpropagating'
 # follow-ups that USE a moved-from object (as a source, for insertion, lookup, initializer-list assignment): outside the claim
@@ -57,6 +60,10 @@ def states_for(kind, role):
         return ['e', 'n1', 'n10', 'c10', 'n100', 'g33', 'h33', 'g129', 'h129', 'n600'] if role == 's' else ['e', 'n3', 'h33', 'c5']
     if kind in ('TreeSet', 'TreeMap'):
         return ['e', 'n1', 'n7', 'c10', 'd60', 'd300'] if role == 's' else ['e', 'n3', 'd40']
+    if kind in ('mapdir', 'setdir'):
+        return ['e', 'n1', 'n7', 'd100'] if role == 's' else ['e', 'n3']
+    if kind == 'usetseed':
+        return ['e', 'n1', 'n10', 'n100'] if role == 's' else ['e', 'n3']
     if kind in ('set', 'mset', 'map', 'mmap'):
         return ['e', 'n1', 'n7', 'c10', 'd700'] + (['w20'] if kind in ('mset', 'mmap') else []) if role == 's' else ['e', 'n3', 'd100']
     if kind in ('HashMulti', 'ummap'):
@@ -131,6 +138,7 @@ def gen_cases(ctx, scale):
             for kind in kinds:
                 if tr[0] != 'N' and int(tr) >= 16 and kind not in ('vec', 'vecic'): continue
                 if tr in ('Nt', 'Nc', 'Ns') and kind not in CATEGORY_KINDS: continue
+                if kind in STATEFUL_WRAP and tr not in ('0', '5', '7'): continue
                 ops = ['copyc', 'copyca', 'movec', 'copya', 'movea', 'swap', 'selfcopya', 'selfmovea', 'selfswap', 'none']
                 if fam == 'W': ops.append('moveca')
                 if kind == 'DataTable': ops.remove('copyca')
@@ -171,6 +179,14 @@ def gen_cases(ctx, scale):
                     # reuse = the source is refilled after the merge (its pools gave their buffers away) and outlives the target
                     for post in ('none', 'clear', 'reuse'):
                         add('N', kind, 'merge', ss, tsx, ids, post)
+    # initializer-list assignment with a stateful comparator / hasher in a non-default state (seeded/C06-c), after every operation
+    for tr in ('0', '5', '7'):
+        if only is not None and tr not in only: continue
+        for kind in STATEFUL_WRAP:
+            for op in ('none', 'copya', 'movea', 'swap', 'copyc', 'movec'):
+                for ss in states_for(kind, 's'):
+                    for ids in ((2, 2, 2), (2, 3, 3), (3, 2, 2)):
+                        add(tr, kind, op, ss, 'n3', ids, 'ilist')
     # copy construction under allocation refusal at every position (delegating constructors: catch + destructor)
     for tr in NATIVE_TOKENS:
         if only is not None and tr not in only: continue
@@ -244,12 +260,13 @@ def build_binaries(ctx):
         if os.path.exists(os.path.join(ctx.build, exe + suffix)) and os.path.exists(sf) and open(sf).read() == stamp:
             continue
         if os.path.exists(sf): os.remove(sf)
-        jobs.append(('harness.cpp', exe, ['-O0', '-DNATIVE', '-DELEMCAT=%d' % ELEMCAT[tr]] if tr[0] == 'N' else ['-O0', '-DTRAITS=' + tr]))
+        dbg = ['-g0'] if ctx.quick() else []          # quick tier: no debug info (cold build time); thorough keeps -g for the sanitizer reports
+        jobs.append(('harness.cpp', exe, ['-O0'] + dbg + (['-DNATIVE', '-DELEMCAT=%d' % ELEMCAT[tr]] if tr[0] == 'N' else ['-DTRAITS=' + tr])))
     res = {}
     if jobs:
         # at most 4 compilers at a time (shared machine)
         import concurrent.futures as cf
-        with cf.ThreadPoolExecutor(max_workers=4) as ex:
+        with cf.ThreadPoolExecutor(max_workers=5) as ex:
             futs = {ex.submit(ctx.cxx, src, exe, fl, None, 3000): exe for (src, exe, fl) in jobs}
             for fu in cf.as_completed(futs):
                 res[futs[fu]] = fu.result()
@@ -297,7 +314,7 @@ def evaluate(ctx, cases, lines):
 def est_state(kind, ss):
     """state whose freshly built object has the structure an element-wise move produces: the source's items inserted
     in traversal (ascending) order into an empty container"""
-    if kind in ('set', 'map'): return ss if ss[0] in 'nd' else 'e'
+    if kind in ('set', 'map', 'setdir', 'mapdir'): return ss if ss[0] in 'nd' else 'e'
     if kind in ('mset', 'mmap'): return ('r' + ss[1:]) if ss[0] in 'nd' else (ss if ss[0] == 'w' else 'e')
     return None
 
@@ -313,7 +330,7 @@ def attach_structure_tokens(ctx, cases):
     def key_of(tr, kind, ss, ts, sid, tid):
         b = tr if tr[0] == 'N' else '0'
         # the shape of an inline-crew tree depends on its comparator's direction (= its id)
-        return (b, kind, ss, ts, sid, tid) if kind in INLINE else (b, kind, ss, ts, 1, 1)
+        return (b, kind, ss, ts, sid, tid) if kind in INLINE or kind in STATEFUL_WRAP else (b, kind, ss, ts, 1, 1)
     for c in cases:
         tr, kind, op, ss, ts, sid, tid, aid, post = case_fields(c)
         keys.setdefault(key_of(tr, kind, ss, ts, sid, tid), None)
@@ -410,7 +427,11 @@ GEN = ['gen_setcrew.json', 'gen_treeclear.json', 'gen_hashclear.json', 'gen_mult
        'gen_setcrew2.json', 'gen_setcrewinl.json', 'gen_treeswap.json', 'gen_hashswap.json', 'gen_tableswap.json',
        'gen_mempooldata.json', 'gen_mempoolswap.json',
        # round 8: move constructors end to end (a member's move constructor is followed into its own translation), HashMultiMap::Swap
-       'gen_multiswap.json', 'gen_treemove.json', 'gen_hashmove.json', 'gen_tablecrew.json', 'gen_tablemove.json']
+       'gen_treemove.json', 'gen_hashmove.json', 'gen_multiswap.json', 'gen_tablecrew.json', 'gen_tablemove.json',
+       'gen_arraydata.json',
+       # round 10: HashMultiMap(HashMultiMap&&) end to end; the HashSet member object inside HashMap inside HashMultiMap is one
+       # packed value (coq/Pack.v: packing only) moved by the generated Gen_HashSet3.MoveCtor
+       'gen_valuecrew.json', 'gen_hashmapmove.json', 'gen_multimove.json']
 
 
 def gen_crew_contract(ctx):
@@ -826,7 +847,8 @@ def run(ctx):
     if any(not s['ok'] for s in ctx.stages.values()) and scale == 1 and not ctx.violations:
         ctx.log('a stage broke: searching the implementation with the thorough generator')
         have = set(' '.join(c.split()[:9]) for c in cases)
-        extra = attach_structure_tokens(ctx, [c for c in gen_cases(ctx, 4) if c not in have])
+        # only for the binaries the quick tier builds (QUICK_SKIP): a case without a binary would be reported as a violation
+        extra = attach_structure_tokens(ctx, [c for c in gen_cases(ctx, 4) if c not in have and c.split()[0] not in QUICK_SKIP])
         more, _ = run_impl_cases(ctx, extra, 'search')
         cases = cases + extra; impl_lines = impl_lines + more; ctx.evaluations += len(extra)
     bad = evaluate(ctx, cases, impl_lines)
